@@ -535,6 +535,7 @@ func ruleTL(c *Ctx) {
 	sort.Strings(vnames)
 	c.Note("validated length consumers (their success edge bounds the argument): %v", vnames)
 	upSeen := map[string]bool{}
+	upOrigin := map[string]string{}
 	for _, s := range sinks {
 		pos := P.pos(s.Instr.Pos())
 		roots := e.roots(s.Expr)
@@ -565,6 +566,50 @@ func ruleTL(c *Ctx) {
 			upKey := s.Key
 			if org := e.originFns(s.Expr, 0); len(org) == 1 {
 				upKey = org[0] + "/declared-length->alloc"
+			}
+			// the container reader's block length is known by its place in the reader's traces, whichever
+			// helper decodes it
+			if v := rfTraceVerdict(P); v.ok && len(v.lengthCalls) > 0 {
+				if calls := e.originCalls(s.Expr); len(calls) > 0 {
+					all := true
+					for _, cl := range calls {
+						if !v.lengthCalls[cl] {
+							all = false
+						}
+					}
+					if all {
+						upKey = "avro.ReadFile/declared-length->alloc"
+					}
+				}
+			}
+			// likewise a length decoded by the header reader or a helper only it calls: the header's metadata
+			// strings, whatever those functions are called
+			if an := rfAnchors(P); an.headerFn != nil {
+				if calls := e.originCalls(s.Expr); len(calls) > 0 {
+					all := true
+					for _, cl := range calls {
+						f := cl.Parent()
+						if f != an.headerFn && !reachedOnlyFrom(P, f, an.headerFn, 0) {
+							all = false
+						}
+					}
+					if all {
+						upKey = "container-header/declared-length->alloc"
+					}
+				}
+			}
+			// a role names one origin: a second, different origin in the same role is a finding of its own
+			if strings.HasPrefix(upKey, "container-header/") || upKey == "avro.ReadFile/declared-length->alloc" {
+				var sig []string
+				for _, cl := range e.originCalls(s.Expr) {
+					sig = append(sig, P.pos(cl.Pos()))
+				}
+				sort.Strings(sig)
+				sg := strings.Join(sig, ",")
+				for n := 2; upOrigin[upKey] != "" && upOrigin[upKey] != sg; n++ {
+					upKey = fmt.Sprintf("%s#%d", strings.SplitN(upKey, "#", 2)[0], n)
+				}
+				upOrigin[upKey] = sg
 			}
 			if upSeen[upKey] {
 				if !bounded {
@@ -1431,6 +1476,50 @@ func nonNilAtEveryCallD(P *Program, fn *ssa.Function, path string, depth int) bo
 
 // originFns: the functions in which the decoded values reaching v are decoded
 // (the callers' argument roots are followed through parameters).
+// originCalls: the calls whose results the value's taint starts at; nil when some origin is not a call result.
+func (e *tlEnv) originCalls(v ssa.Value) []*ssa.Call {
+	var out []*ssa.Call
+	okAll := true
+	seen := map[ssa.Value]bool{}
+	var rec func(v ssa.Value, d int)
+	rec = func(v ssa.Value, d int) {
+		if d > 4 {
+			okAll = false
+			return
+		}
+		for _, r := range e.roots(v) {
+			if seen[r] {
+				continue
+			}
+			seen[r] = true
+			switch x := r.(type) {
+			case *ssa.Parameter:
+				if len(e.sites[x]) == 0 {
+					okAll = false
+				}
+				for _, s := range e.sites[x] {
+					rec(s.Arg, d+1)
+				}
+			case *ssa.Extract:
+				if call, ok := x.Tuple.(*ssa.Call); ok {
+					out = append(out, call)
+				} else {
+					okAll = false
+				}
+			case *ssa.Call:
+				out = append(out, x)
+			default:
+				okAll = false
+			}
+		}
+	}
+	rec(v, 0)
+	if !okAll {
+		return nil
+	}
+	return out
+}
+
 func (e *tlEnv) originFns(v ssa.Value, depth int) []string {
 	set := map[string]bool{}
 	var rec func(v ssa.Value, d int)
@@ -1507,4 +1596,26 @@ func isRangeFuncGuard(p *ssa.Panic) bool {
 	}
 	s, ok := constString(mi.X)
 	return ok && (s == "iterator call did not preserve panic" || s == "yield function called after range loop exit")
+}
+
+// reachedOnlyFrom: every chain of static calls leading to f starts at root (f has callers, and each is root
+// or itself reached only from root).
+func reachedOnlyFrom(P *Program, f, root *ssa.Function, d int) bool {
+	if d > 4 {
+		return false
+	}
+	sites := callersOf(P, f)
+	if len(sites) == 0 {
+		return false
+	}
+	for _, s := range sites {
+		g := s.Parent()
+		if g == root || g == f {
+			continue
+		}
+		if !reachedOnlyFrom(P, g, root, d+1) {
+			return false
+		}
+	}
+	return true
 }
